@@ -62,7 +62,10 @@ func ValidateSchemaDocument(sd *SchemaDocument) (*Schema, error) {
 		switch def.Kind {
 		case Union:
 			for _, t := range def.Types {
-				schema.AddPossibleType(def.Name, schema.Types[t])
+				// an undefined member is reported by validateDefinition; do not register nil as a possible type
+				if member := schema.Types[t]; member != nil {
+					schema.AddPossibleType(def.Name, member)
+				}
 				schema.AddImplements(t, def)
 			}
 		case InputObject, Object:
